@@ -1,3 +1,5 @@
+//go:build !no_c05
+
 package props
 
 import (
